@@ -352,7 +352,9 @@ def engine_gets_validated(ctx, prog, fam, m, vcalls, succ):
                     ok, why = False, 'built at %s, outside the function that validated the configuration' % s.get('loc', '?')
                 else:
                     ok = bool(none_e) and i not in r0
-                    via = [w for j, tg, w in other_e if i == tg or i in m.reach([tg])]
+                    # name the arm only when the construction sits in it (not when it merely follows the whole match)
+                    common = m.reach([tg for j, tg, _ in none_e]) if none_e else set()
+                    via = [w for j, tg, w in other_e if i not in common and (i == tg or i in m.reach([tg], avoid_blocks=common))]
                     why = 'only on the edge fsync_policy = None of the validated configuration' if ok else \
                         'FsyncPolicy::Never at %s is reachable without the validated fsync_policy being None%s: a configuration that validate() accepts outside ' \
                         'benchmark mode runs without fsync' % (s.get('loc', '?'), (' (edge %s)' % via[0]) if via else '')
